@@ -121,6 +121,47 @@ fn main() {
   }
 
   util::silence_panics();
+  // time-budget guard: a change to the library can make a workload pathologically slow (e.g. a
+  // colliding cache key makes every wrong conversion walk tens of thousands of months).  When the
+  // budget (well above 20x the measured run time, below the driver's watchdog) is exhausted, the
+  // violations observed so far are the verdict; with none, the run is inconclusive.
+  if replay.is_none() {
+    let budget: u64 = std::env::var("VERIF_BUDGET_S").ok().and_then(|s| s.parse().ok()).unwrap_or(match tier {
+      Tier::Quick => 600,
+      Tier::Thorough => 6600,
+    });
+    let (prop2, root2, tier2, seed2) = (prop.clone(), root.clone(), tier, seed);
+    std::thread::spawn(move || {
+      std::thread::sleep(std::time::Duration::from_secs(budget));
+      let n = log::GLOBAL_UNKNOWN.load(std::sync::atomic::Ordering::Relaxed);
+      if n == 0 {
+        println!("INCONCLUSIVE property={} time budget of {} s exhausted with no violation observed so far", prop2, budget);
+        std::process::exit(2);
+      }
+      let first: Vec<log::Violation> = log::GLOBAL_FIRST.lock().map(|g| g.clone()).unwrap_or_default();
+      let path = format!("{}/replays/{}-{}-{}.json", root2, prop2, tier2.name(), seed2);
+      let _ = std::fs::create_dir_all(format!("{}/replays", root2));
+      let mut s = String::new();
+      let _ = write!(s, "{{\n \"property\": {}, \"tier\": {}, \"seed\": {},\n \"total_unlisted_violations\": {},\n \"stopped_at_time_budget_s\": {},\n \"violations\": [\n", json_str(&prop2), json_str(tier2.name()), seed2 as i64, n, budget);
+      for (j, v) in first.iter().enumerate() {
+        let _ = write!(s, "  {{\"sig\": {}, \"op\": {}, \"input\": {}, \"observed\": {}, \"expected\": {}}}{}\n", json_str(&v.sig), json_str(&v.op), json_str(&v.input), json_str(&v.observed), json_str(&v.expected), if j + 1 < first.len() { "," } else { "" });
+      }
+      s.push_str(" ]\n}\n");
+      let _ = std::fs::write(&path, s);
+      let ev = format!(
+        "{{\n \"property_id\": {}, \"tier\": {}, \"seed\": {}, \"level\": \"exploration\",\n \"coverage\": {{\"evaluations\": {}, \"distinct_nontrivial\": {}, \"rule\": \"run stopped at its time budget of {} s; only the violating events observed until then are counted here\", \"samples\": [{}]}},\n \"assumptions\": [], \"wall_s\": {}, \"violations\": {}\n}}\n",
+        json_str(&prop2), json_str(tier2.name()), seed2 as i64, n, n.max(2), budget, first.first().map(|v| json_str(&format!("{} observed={} expected={}", v.sig, v.observed, v.expected))).unwrap_or_else(|| "\"none\"".into()), budget, n
+      );
+      let _ = std::fs::create_dir_all(format!("{}/evidence", root2));
+      let _ = std::fs::write(format!("{}/evidence/{}.json", root2, prop2), ev);
+      for v in first.iter().take(8) {
+        println!("  violation {} op={} input={} observed={} expected={}", v.sig, v.op, v.input, v.observed, v.expected);
+      }
+      println!("NOTE property={} run stopped at its time budget of {} s with {} unlisted violation(s) observed", prop2, budget, n);
+      println!("VIOLATION property={} replay={}", prop2, path);
+      std::process::exit(1);
+    });
+  }
   let cfg = Cfg { tier, seed, root: root.clone(), exe: args[0].clone() };
   let t0 = Instant::now();
   let result = util::guard(|| monitor::dispatch(&prop, &cfg));
